@@ -25,7 +25,7 @@ COMPONENTS = {"real": ["ECAgent.Core._MetaAgent (per-class _components / _tag, a
 PROBES = ["explicit_tag_zero_with_nonzero_default", "tag_set_on_Agent_itself", "class_component_on_environment_class",
           "reject_duplicate_attach", "reject_detach_absent", "instance_component_attached", "subclass_instantiated_after_tag",
           "parent_instantiated_after_child_tag", "child_instantiated_after_parent_tag", "depth_3_chain", "sibling_isolation_checked", "class_created_mid_history", "class_cloned_from_namespace",
-          "shared_namespace_dict"]
+          "shared_namespace_dict", "model_lifecycle_op"]
 TECHNIQUE = "deterministic simulation: seeded class-level attach/detach/tag histories over generated hierarchies, pristine forked process per history, per-class reference"
 LEVEL_TEXT = ("Seeded search over class hierarchies and class-level histories; after every operation, for every class in the "
               "hierarchy including Agent and Environment, class components, length, membership and default tag must equal a "
@@ -88,8 +88,10 @@ def generate(rng, tier):
                     ops.append({"op": "new", "c": f, "tag": rng.choice([None, None, 0]), "comp": None})
         elif r < 0.88:
             ops.append({"op": "new", "c": c, "tag": rng.choice([None, None, None, 0, 0, 3]), "comp": rng.choice([None, None, 0, 1, 2])})
-        elif r < 0.94:
+        elif r < 0.93:
             ops.append({"op": "subclass", "c": c, "how": rng.choice(["fresh", "shared", "clone", "clone"])})
+        elif r < 0.95:
+            ops.append({"op": "lifecycle", "c": c, "what": rng.choice(["complete", "step"])})
         else:
             ops.append({"op": "observe"})
     return {"classes": classes, "ops": ops}
@@ -170,7 +172,11 @@ def execute(sc, ctx):
         i = op["c"] % len(built)
         cls, parent, rootkind = built[i]
         pos = [depth(i), rootkind, len(children(i))]
-        if kind == "attach":
+        if kind == "lifecycle":
+            # class-level state does not depend on the lifecycle of the model the components were built with
+            ctx.expect_ok("lifecycle", m.complete if op["what"] == "complete" else m.execute)
+            ctx.probe("model_lifecycle_op")
+        elif kind == "attach":
             T = PT[op["t"] % 3]
             comp = T(cls, m)
             if T in comps[i]:
